@@ -15,13 +15,14 @@ import core
 import geom
 
 
-def _mk(r, scale):
+def _mk(r, scale, ints=False):
     from evo.core.result import Result
     res = Result()
     for k, v in r["stats"]:
         res.stats[k] = scale * float(v)
     for k, a in r["arrays"]:
-        res.np_arrays[k] = scale * np.array(a, dtype=float)
+        # (integer-valued arrays may be handed over with an integer dtype: the element-wise mean is still the mean)
+        res.np_arrays[k] = np.array(a, dtype=np.int64) if ints and scale == 1.0 else scale * np.array(a, dtype=float)
     res.info = {"title": "t%d" % r["info"], "est_name": "e%d" % r["info"]}
     return res
 
@@ -35,7 +36,7 @@ def exec_merge(job):
     from evo.core import result
     n, rs, seed = job
     scale = [1.0, 0.25, 8.0][(n + seed) % 3]
-    objs = [_mk(r, scale) for r in rs]
+    objs = [_mk(r, scale, ints=(n // 3) % 2 == 1) for r in rs]
     before = [_snap(o) for o in objs]
     out = {"out": "ok", "same": False, "stats": [], "arrays": [], "info": 0}
     try:
@@ -56,7 +57,7 @@ def exec_merge(job):
     if not out["same"]:      # operate on the merged result: the inputs must not notice
         for a in m.np_arrays.values():
             if a.size:
-                a += 1.0
+                np.add(a, 1, out=a, casting="unsafe")
         for k in list(m.stats):
             m.stats[k] += 1.0
         m.info["title"] = "changed"
@@ -161,6 +162,18 @@ def run(rep, tier, seed):
     if tier == "thorough" and len(cases) > 60000:
         rng.shuffle(cases)
         cases = cases[:60000]
+    # key sets that differ because one of them is EMPTY (also as the first result of the list): refused like any other difference
+    for k, c in enumerate(list(cases[:4000])):
+        if k % 40 == 0 and len(c) >= 2 and (c[1]["stats"] or c[1]["arrays"]):
+            which = "stats" if (k // 40) % 2 and c[1]["stats"] else ("arrays" if c[1]["arrays"] else "stats")
+            cases.append([dict(c[0], **{which: []})] + [dict(x) for x in c[1:]])
+            cases.append([dict(x) for x in c[:-1]] + [dict(c[-1], **{which: []})])
+    # element-wise means that are not integers (the model's values 11, 21, 41, ... average to integers for two results)
+    for k, c in enumerate(list(cases[:4000])):
+        if k % 15 == 0 and len(c) == 2:
+            c2 = [dict(c[0]), dict(c[1], arrays=[[key, [v + 1 for v in a]] for key, a in c[1]["arrays"]],
+                                 stats=[[key, v + 1] for key, v in c[1]["stats"]])]
+            cases.append(c2)
     import evo.core.result  # noqa: F401
     obs = core.pmap(exec_merge, [(n, c, seed) for n, c in enumerate(cases)], chunksize=200)
     traces = [{"id": "m%d" % n, "what": "merge", "rs": c, "o": o, "_single": True} for n, (c, o) in enumerate(zip(cases, obs))]
